@@ -128,6 +128,7 @@ func decimalCases(c *Ctx, p, s int, nrand int) []cellCase {
 
 func runC11(c *Ctx) {
 	c.R.Rule = "all valid DECIMAL(p,s) pairs (p 1..65, s 0..min(30,p)) x digit patterns {all zeros, all nines, single low/high digit, each 9-digit group zero/non-zero/full, random with random leading zeros} x sign; distinct = (group structure, pattern, sign) tuples"
+	typedHistories(c, "C11", colCasesC11, c.N(25, 400))
 	var cases []cellCase
 	pairs := 0
 	for p := 1; p <= 65; p++ {
